@@ -225,6 +225,22 @@ fn conv_modulus(n: &W, kmax: u32, kstress: u32) -> (u64, Vec<Bad>) {
                 ev += conv_case(&zn, n, mzp.as_ref(), size, a, b, 0, size, &mut bad);
             }
         }
+        // sparse operands: transforms of unit vectors are shifted and negated residues (words of
+        // all ones), the carry corner cases of the large-element (Karatsuba) ring product
+        let unit = |len: usize, i: usize, neg: bool| {
+            let mut s = vec![0i64; len];
+            s[i] = if neg { -1 } else { 1 };
+            Operand { s, mult: if neg { *n / W::from_digit(3) + W::ONE } else { W::ONE }, name: format!("{}e_{}", if neg { "-n/3*" } else { "" }, i) }
+        };
+        let h = size / 2;
+        for (la, ia, lb, ib, off) in [(h, h - 1, h - 1, h - 2, 0usize), (h, h - 1, h - 1, h - 2, h), (h, h - 1, 3, 2, 0), (size, size - 1, size, size - 1, 0), (h + 1, h, h, 1, 1), (size, size - 2, 2, 1, size - 1)] {
+            for neg in [false, true] {
+                ev += conv_case(&zn, n, mzp.as_ref(), size, &unit(la, ia, false), &unit(lb, ib, neg), off, size - off, &mut bad);
+            }
+        }
+        for (a, b) in [("alt(0,n-1)", "n-1-ramp"), ("quadratic*n/3", "alt(0,n-1)")] {
+            ev += conv_case(&zn, n, mzp.as_ref(), size, &pick(a), &pick(b), 0, size, &mut bad);
+        }
         if bad.len() > 40 {
             return (ev, bad);
         }
@@ -555,7 +571,7 @@ pub fn run(ctx: &Ctx) -> Report {
     let mut rep = Report::new("exploration");
     let ms = moduli(ctx);
     let kmax = ctx.pick(10, 13);
-    let kstress = ctx.pick(13, 16);
+    let kstress = ctx.pick(14, 16);
     let quick = ctx.quick();
     // convolutions
     let res: Vec<(u64, Vec<Bad>)> = ms.par_iter().map(|n| conv_modulus(n, kmax, kstress)).collect();
@@ -586,7 +602,7 @@ pub fn run(ctx: &Ctx) -> Report {
     rep.sample(J::obj(vec![("fn", J::s("convolve_modn")), ("n", J::s("2^192-1")), ("a", J::s("e_{size/2}")), ("b", J::s("ones"))]));
     rep.sample(J::obj(vec![("fn", J::s("mul_fft / mul_karatsuba / mul_basic")), ("lengths", J::s("28 x 29")), ("n", J::s(pm.last().cloned().unwrap_or(W::ONE)))]));
     rep.sample(J::obj(vec![("fn", J::s("roots_eval")), ("|a|", J::from(65u64)), ("|b|", J::from(64u64))]));
-    rep.rule = format!("moduli: 2^b-1, 2^(b-1)+1 and a generic shape for b in {{2,17,64,65,128,149..151,155,156,192,244..246,256,279..281,309..311,320,384,448,499,500}} (both sides of every Kronecker packing class edge; quick: two shapes), plus 2^64+1. Convolutions (Schonhage-Strassen and multi-prime NTT): every transform size 2^1..2^{}, operand lengths {{1, size/2-1, size/2, size/2+1, size}}^2, offsets {{0,1,size/2,size-1}}, operands = small signed patterns (ones, n-1, ramp, n-1-ramp, alternating, quadratic, zeros, unit vectors at every position for size <= 64) x residue multipliers {{1, n/3}}: all pattern pairs at full length and for size <= 16, a deterministic rotation elsewhere; above that up to 2^{} the 12 full-length worst-case pairs {{ones,n-1,n/3}} x {{ones,n-1,n/3,ramp}} (largest accumulated sums); reference = exact integer convolution (i128) folded cyclically, one reduction per coefficient. Poly operations on 12 moduli: mul_basic/mul_karatsuba/mul_fft for (quick: a third of) all length pairs <= {} and 2^j-1,2^j,2^j+1, middle product, power-series quotient (q*d = p mod x^len), from_roots, multi_eval and roots_eval for point counts below/equal/above the degree, against bnum schoolbook with 1152-bit accumulators.", kmax, kstress, if quick { 40 } else { 72 });
+    rep.rule = format!("moduli: 2^b-1, 2^(b-1)+1 and a generic shape for b in {{2,17,64,65,128,149..151,155,156,192,244..246,256,279..281,309..311,320,384,448,499,500}} (both sides of every Kronecker packing class edge; quick: two shapes), plus 2^64+1. Convolutions (Schonhage-Strassen and multi-prime NTT): every transform size 2^1..2^{}, operand lengths {{1, size/2-1, size/2, size/2+1, size}}^2, offsets {{0,1,size/2,size-1}}, operands = small signed patterns (ones, n-1, ramp, n-1-ramp, alternating, quadratic, zeros, unit vectors at every position for size <= 64) x residue multipliers {{1, n/3}}: all pattern pairs at full length and for size <= 16, a deterministic rotation elsewhere; above that up to 2^{} the 12 full-length worst-case pairs {{ones,n-1,n/3}} x {{ones,n-1,n/3,ramp}} (largest accumulated sums), 12 unit-vector pairs near the middle and the end with offsets (shifted/negated residues in the large-element ring product) and two dense signed pairs; reference = exact integer convolution (i128) folded cyclically, one reduction per coefficient. Poly operations on 12 moduli: mul_basic/mul_karatsuba/mul_fft for (quick: a third of) all length pairs <= {} and 2^j-1,2^j,2^j+1, middle product, power-series quotient (q*d = p mod x^len), from_roots, multi_eval and roots_eval for point counts below/equal/above the degree, against bnum schoolbook with 1152-bit accumulators.", kmax, kstress, if quick { 40 } else { 72 });
     rep.assumptions.push("reference arithmetic: i128 integer convolution and bnum".into());
     rep
 }
